@@ -378,6 +378,10 @@ func TestVerif_C06_putvalue(t *testing.T) {
 				if err != nil || cancelled {
 					// the closest-peers lookup did not succeed (empty table / cancelled): nothing more is promised
 					c.Obs("lookup_failed_or_cancelled", 1)
+					if err != nil && !cancelled && d.Lookups == 1 && d.Terminated {
+						// ... but an error although the lookup terminated un-cancelled: only when it returned nobody
+						c.Check(len(d.R) == 0, "put-error-only-without-recipients", "PutValue returned %v although its closest-peers lookup succeeded and returned %v", err, n.Names(d.R))
+					}
 					return
 				}
 				c.Check(storedAtReturn, "local-record-stored", "PutValue returned nil but the record was never written to the local datastore")
@@ -435,7 +439,8 @@ func vC06Filter(name string) func([]ma.Multiaddr) []ma.Multiaddr {
 			return out
 		}
 	case "none":
-		return func([]ma.Multiaddr) []ma.Multiaddr { return nil }
+		// empty but non-nil, as multiaddr.FilterAddrs returns it (the other filters return nil when nothing passes)
+		return func([]ma.Multiaddr) []ma.Multiaddr { return []ma.Multiaddr{} }
 	case "first":
 		return func(in []ma.Multiaddr) []ma.Multiaddr {
 			if len(in) > 1 {
@@ -606,9 +611,18 @@ func vC06RunProvide(t *testing.T, c *vh.Case, sc vC06ProvSc) {
 		defer tm.Stop()
 	}
 	start := time.Now()
-	perr := n.D.Provide(lctx, cidKey, sc.Broadcast)
+	// the call's own context (child of the one carrying the event subscription): in half of the
+	// optimistic cases the caller cancels it as soon as Provide has returned ("defer cancel()")
+	pctx, pcancel := context.WithCancel(lctx)
+	defer pcancel()
+	perr := n.D.Provide(pctx, cidKey, sc.Broadcast)
 	end := time.Now()
 	cancelled := ctx.Err() != nil
+	walkAway := sc.Optim && c.Idx%2 == 0
+	if walkAway {
+		pcancel()
+	}
+	c.Set("caller_cancels_after_return", walkAway)
 	if sc.Optim && !cancelled {
 		time.Sleep(90 * time.Second) // the remaining ADD_PROVIDERs run in the background for up to a minute
 	}
@@ -688,8 +702,13 @@ func vC06RunProvide(t *testing.T, c *vh.Case, sc vC06ProvSc) {
 	c.Obs("failing_recipients", failing)
 	if !sc.Optim {
 		if perr != nil {
+			// an error although the lookup terminated un-cancelled: only when it returned nobody
 			c.Obs("provide_error", 1)
-			return
+			if !c.Check(len(d.R) == 0, "provide-error-only-without-recipients", "Provide returned %v although its closest-peers lookup succeeded and returned %v", perr, n.Names(d.R)) {
+				c.Logf("judging the recipients all the same")
+			} else {
+				return
+			}
 		}
 		vC06CheckRecipients(c, n, sends, d.R, "ADD_PROVIDER", "add-provider-one-per-closest", "add-provider-only-to-closest", beh)
 		for _, p := range d.R {
@@ -722,6 +741,20 @@ func vC06RunProvide(t *testing.T, c *vh.Case, sc vC06ProvSc) {
 		}
 		sort.Strings(strangers)
 		sort.Strings(twice)
+		// delivery, not only hand-over to the sender: the ADD_PROVIDERs still in flight when Provide
+		// returns early (after 75 % of them concluded) run on the node's own context, for up to one
+		// minute counted from the start of the call, whatever the caller does with its context
+		// afterwards. Judged only when the lookup left them at least 10 s of that minute.
+		if d.TermVT.Sub(start) < 50*time.Second {
+			for _, p := range d.R {
+				if beh[p] == "ok/ok" && len(sends[p]) == 1 {
+					sp := n.S.Peer(p)
+					c.Check(len(sp.GotProvs) == 1, "healthy-recipient-got-record", "healthy peer %s, returned by the lookup, was handed one ADD_PROVIDER at +%v but received %d (Provide returned at +%v, caller cancelled its context afterwards: %v)", n.Name(p), sends[p][0].VT.Sub(start), len(sp.GotProvs), end.Sub(start), walkAway)
+				}
+			}
+		} else {
+			c.Obs("lookup_longer_than_50s", 1)
+		}
 		c.Check(len(missing) == 0, "optimistic-covers-closest", "peers returned by the lookup that were never sent ADD_PROVIDER: %v (R=%v, recipients %v, reason %s)", missing, n.Names(d.R), vC06Names(n, sends), d.Reason)
 		c.Check(len(strangers) == 0, "optimistic-only-learned", "ADD_PROVIDER sent to peers the lookup never learned: %v", strangers)
 		c.Check(len(twice) == 0, "optimistic-nobody-twice", "ADD_PROVIDER sent more than once: %v", twice)
@@ -757,7 +790,7 @@ func TestVerif_C06_provide(t *testing.T) {
 func TestVerif_C06_optprovide(t *testing.T) {
 	vh.Run(t, vh.Spec{Prop: "C06", Unit: "optprovide", Quick: 500, Thorough: 15000, CostMs: 7,
 		Rule:    "Provide with EnableOptimisticProvide and a network-size estimator warmed up over a phantom population of 0.25x/1x/4x N (so that the individual / set thresholds fire early, normally, or never); at least one routing-table peer healthy (finding #1 is C03's); same address/filter/failure mixes as provide; the background ADD_PROVIDERs are given 90 s of virtual time; oracle: R (from lookup events) ⊆ recipients ⊆ learned peers, nobody sent twice, payload and local record as provide; non-trivial as provide",
-		Clauses: []string{"local-provider-recorded", "local-provider-before-first-send", "add-provider-names-exactly-self", "add-provider-addresses-filtered", "optimistic-covers-closest", "optimistic-only-learned", "optimistic-nobody-twice", "optimistic-early-store-seen"}},
+		Clauses: []string{"local-provider-recorded", "local-provider-before-first-send", "add-provider-names-exactly-self", "add-provider-addresses-filtered", "optimistic-covers-closest", "optimistic-only-learned", "optimistic-nobody-twice", "optimistic-early-store-seen", "healthy-recipient-got-record"}},
 		func(c *vh.Case) {
 			sc := vC06GenProv(c, true)
 			c.Bubble(t, 30*time.Minute, "provide-hang", func(t *testing.T) { vC06RunProvide(t, c, sc) })
@@ -769,7 +802,7 @@ func TestVerif_C06_optprovide(t *testing.T) {
 func TestVerif_C06_corrective(t *testing.T) {
 	vh.Run(t, vh.Spec{Prop: "C06", Unit: "corrective", Quick: 700, Thorough: 25000, CostMs: 8,
 		Rule:    "value searches of C04 (SearchValue / GetValue, records of all kinds over responders and local store, quorum in {unset,0,1,2,K}), uncancelled, 0-50% of the peers failing PUT_VALUE, 2 virtual minutes for the corrective puts; a search is complete iff it was not ended by its quorum (decided from the number of valid supplies on the wire); oracle for complete searches with a value: exactly one PUT_VALUE {key, best value} to each member of R (top K not-unreachable peers of the embedded lookup, recomputed from its events) that did not answer with the best value's bytes, none to those that did, none elsewhere; for searches ended by quorum: no PUT_VALUE to a holder of the final value; non-trivial = complete search, >= 1 holder of the best value in R and >= 1 corrective put; distinct by (shape, quorum, supplies arrival order)",
-		Clauses: []string{"corrective-to-non-holders", "corrective-not-to-holders", "corrective-only-closest", "corrective-carries-best", "holder-in-closest-seen"}},
+		Clauses: []string{"corrective-to-non-holders", "corrective-not-to-holders", "corrective-only-closest", "corrective-carries-best", "holder-in-closest-seen", "corrective-delivered"}},
 		func(c *vh.Case) {
 			r := c.R
 			sc := vC04GenSc(c, []string{"search", "get"}[r.Intn(2)])
@@ -777,6 +810,7 @@ func TestVerif_C06_corrective(t *testing.T) {
 			sc.Events = true
 			sc.Settle = 2 * time.Minute
 			sc.StoreFail = []float64{0, 0.2, 0.5}[r.Intn(3)]
+			sc.WalkAway = c.Idx%2 == 0 // the caller cancels its context as soon as the search has returned
 			if sc.HolderFrac == 0 {
 				sc.HolderFrac = 0.4
 			}
@@ -855,6 +889,21 @@ func TestVerif_C06_corrective(t *testing.T) {
 					beh[p] = k
 				}
 				vC06CheckRecipients(c, n, sends, want, "corrective PUT_VALUE", "corrective-to-non-holders", "corrective-only-closest", beh)
+				// delivery, not only hand-over to the sender: the corrective puts run on the node's own
+				// context (30 s per peer; the node stays up for 2 more minutes), whatever the caller does
+				// with the context of its finished search
+				for _, p := range want {
+					if k := strings.Split(res.kinds[p], "/"); len(k) == 3 && k[0] == "ok" && k[2] == "ok" && len(sends[p]) == 1 {
+						got := false
+						for _, rec := range n.S.Peer(p).GotPuts {
+							if string(rec.GetKey()) == sc.Key && string(rec.GetValue()) == string(best) {
+								got = true
+							}
+						}
+						c.Check(got, "corrective-delivered", "healthy peer %s was handed the corrective PUT_VALUE but never received it (caller cancelled its context after the search returned: %v)", n.Name(p), sc.WalkAway)
+					}
+				}
+				c.Set("caller_cancels_after_return", sc.WalkAway)
 				if inR > 0 && len(want) > 0 {
 					c.Nontrivial(sig)
 				}
